@@ -1,15 +1,32 @@
 #!/bin/sh
 # Run once after a fresh restore, offline: warm the Go build cache by building the harness
-# against /repo (hooks on), and check that TLC starts.
+# against /repo (hooks on) once per driver (each check builds only its own driver: the drivers
+# are separate compilation units selected by build tags), and check that TLC starts.
 set -e
 cd "$(dirname "$0")"
 export GOFLAGS=-mod=mod GOPROXY=off GOSUMDB=off GOTOOLCHAIN=local
 mkdir -p out/setup/build evidence
 python3 - <<'PY'
-import sys; sys.path.insert(0, "tools")
+import sys, glob, os, importlib
+sys.path.insert(0, "tools")
 import vlib
-b = vlib.build_harness(vlib.outdir("setup"))
-print("harness built:", b)
+wd = vlib.outdir("setup")
+drivers = set()
+for f in sorted(glob.glob("tools/fam_*.py")):
+    try:
+        m = importlib.import_module(os.path.basename(f)[:-3])
+    except Exception as e:
+        print("warning: cannot import", f, e)
+        continue
+    fam = getattr(m, "FAM", None)
+    if isinstance(fam, dict) and fam.get("driver"):
+        drivers.add(fam["driver"])
+    for d in getattr(m, "DRIVERS", []):
+        drivers.add(d)
+for d in sorted(drivers):
+    vlib.build_harness(wd, driver=d)
+vlib.build_harness(wd, race=True, driver="none,racep")
+print("harness built for drivers:", ", ".join(sorted(drivers)))
 PY
 JAVA_TOOL_OPTIONS="-DTLA-Library=$(pwd)/specs/lib" tla-sany specs/csync/CsyncP.tla >/dev/null 2>&1 || { echo "tla-sany failed"; exit 1; }
 echo setup ok
